@@ -252,6 +252,7 @@ def run(ctx):
     ctx.coverage['evaluations'] += n * 4 + n2 * 5
     from .. import qparse as _qp
     n4 = _qp.check_operators(ctx, 'c03op')      # the operator grammar: how a negation is READ (Model/OpParse.v against value_cmp)
+    n4 += _qp.check_clauses(ctx, 'c03cl', 4000 if ctx.tier == 'thorough' else 1500)      # how the negation in front of a clause is READ (Model/ClauseParse.v against single_clause)
     ctx.coverage['distinct_nontrivial'] = n + n2 + n4
     ctx.coverage['exhaustive'] = ctx.tier == 'thorough'
     ctx.coverage['rule'] = ('groups = document x query shape (scalar, list, list elements, empty list, map, missing, filtered, '
@@ -262,7 +263,7 @@ def run(ctx):
     ctx.sample({'rules': group_file(*variants('lm[*].k', True, '>', '1')), 'data': json.dumps(DOCS[0])})
     ctx.coverage['trusted_base'] = [
         'Coq 8.16.1 kernel (coqc), vm_compute for case evaluation; no axioms',
-        'hand-written model SEval.v/Operators.v/OpParse.v (modelled, not verified); correspondence hooks eval_dump, parse_cmp_dump + tools/gv glue',
+        'hand-written model SEval.v/Operators.v/OpParse.v/ClauseParse.v (modelled, not verified); correspondence hooks eval_dump, parse_cmp_dump, parse_clause_dump + tools/gv glue',
         'fancy_regex oracle table per run',
     ]
     ctx.assumptions = ['ordering operators have no operator-level negated spelling; for them only the single-comparable-value inversion and SKIP preservation are monitored']
